@@ -1,30 +1,45 @@
 import Driver.Util
 import Driver.C20
 import Driver.V2
+import Driver.V2Match
 /-
 lcdriver: reads one record per line on stdin, `<stage>\t<id>\t<fields…>`,
 runs the model's executable definitions, prints `<id>\t<result>`.
 -/
 open Driver
 
-def handle (line : String) : String :=
+structure St where
+  corpora : List (String × V2Match.Corpus) := []
+
+def handle (st : St) (line : String) : St × String :=
   match splitTab line with
-  | "heap" :: id :: ops :: _ => id ++ "\t" ++ C20.runHeap (if ops.isEmpty then [] else ops.splitOn ",")
+  | "heap" :: id :: ops :: _ => (st, id ++ "\t" ++ C20.runHeap (if ops.isEmpty then [] else ops.splitOn ","))
   | "sets" :: id :: en :: ops :: _ =>
     let e : LC.Sets.Enum Nat := if en = "rev" then LC.Sets.Enum.rev else LC.Sets.Enum.id
-    id ++ "\t" ++ C20.runSets e 4 (if ops.isEmpty then [] else ops.splitOn ",")
-  | "tok" :: id :: n :: hx :: _ => id ++ "\t" ++ V2.runTok (n == "1") (unhex hx)
-  | _ :: id :: _ => id ++ "\tBADSTAGE"
-  | _ => "?\tBADLINE"
+    (st, id ++ "\t" ++ C20.runSets e 4 (if ops.isEmpty then [] else ops.splitOn ","))
+  | "tok" :: id :: n :: hx :: _ => (st, id ++ "\t" ++ V2.runTok (n == "1") (unhex hx))
+  | "v2corpus" :: id :: thr :: q :: words :: docs :: _ =>
+    let c := V2Match.parseCorpus thr q words docs
+    ({ st with corpora := (id, c) :: st.corpora },
+      id ++ "\t" ++ s!"corpus {c.docs.size} docs {c.words.size} words")
+  | "match" :: id :: cid :: toks :: crs :: diffs :: _ =>
+    match st.corpora.lookup cid with
+    | some c => (st, id ++ "\t" ++ V2Match.runMatch c toks crs diffs)
+    | none => (st, id ++ "\tNOCORPUS")
+  | _ :: id :: _ => (st, id ++ "\tBADSTAGE")
+  | _ => (st, "?\tBADLINE")
 
-partial def loop (h : IO.FS.Stream) (out : IO.FS.Stream) : IO Unit := do
+partial def loop (h : IO.FS.Stream) (out : IO.FS.Stream) (st : St) : IO Unit := do
   let line ← h.getLine
   if line.isEmpty then return ()
   let l := (line.dropEndWhile (fun c => c = '\n' || c = '\r')).toString
-  if !l.isEmpty then out.putStrLn (handle l)
-  loop h out
+  if l.isEmpty then loop h out st
+  else
+    let (st', r) := handle st l
+    out.putStrLn r
+    loop h out st'
 
 def main : IO Unit := do
   let stdin ← IO.getStdin
   let stdout ← IO.getStdout
-  loop stdin stdout
+  loop stdin stdout {}
